@@ -382,12 +382,19 @@ Qed.
 (* ---------------------------------------------------------------------------------------------------- *)
 (* ERun                                                                                                  *)
 (* ---------------------------------------------------------------------------------------------------- *)
+Definition timers_after_run (s : state) (tid : nat) : list timer :=
+  match nth_error (timers s) tid with
+  | Some t => match tst t with TFired => set_tst (timers s) tid TDone | _ => timers s end
+  | None => timers s
+  end.
+
 Lemma run_pinv : forall s P tid, pinv s P ->
   exists s' o P', run_timer current s tid = (s', o) /\ check_timeout_cbs P (now s) o = inl P' /\
     has_panic o = false /\ pinv s' P' /\
-    now s' = now s /\ npid s' = npid s /\ fib s' = fib s /\ inc s' = inc s /\ panicked s' = panicked s.
+    now s' = now s /\ npid s' = npid s /\ fib s' = fib s /\ inc s' = inc s /\ panicked s' = panicked s /\
+    timers s' = timers_after_run s tid.
 Proof.
-  intros s P tid I. pose proof (pi_wf s P I) as W. unfold run_timer.
+  intros s P tid I. pose proof (pi_wf s P I) as W. unfold run_timer, timers_after_run.
   destruct (nth_error (timers s) tid) as [t|] eqn:Et.
   2:{ exists s, [], P. split; [reflexivity|]. split; [reflexivity|]. split; [reflexivity|]. split; [exact I|]. auto 10. }
   destruct (tst t) eqn:Es; try (exists s, [], P; split; [reflexivity|]; split; [reflexivity|]; split; [reflexivity|]; split; [exact I|]; auto 10; fail).
